@@ -87,6 +87,7 @@ class Contract(object):
         self.frame_check = None
         self.theories = set()           # optional axiom groups (sym.GROUPS) the obligations of this contract need
         self.functional = None          # optional fn(**args) -> value: `result == functional(args)` IS the postcondition
+        self.witnessed_ = []            # (label, fn): existential clauses proved by naming the witness among the function's final locals
 
     # -- declaration API
     def case(self, name, **over):
@@ -105,6 +106,13 @@ class Contract(object):
 
     def raises(self, cls, only_if=None):
         self.raises_.append((cls, only_if))
+        return self
+
+    def ensures_witnessed(self, fn, label):
+        """an existential postcondition `exists w. phi(args, result, w)`: fn takes `_locals` (the function's locals when it returned) to
+        name the witness.  Proved when the function is verified; NOT handed to callers (they have no witness) - a caller-visible
+        consequence has to be stated as an ordinary ensures clause."""
+        self.witnessed_.append((label, fn))
         return self
 
     def returns(self, maker):
@@ -196,6 +204,8 @@ class Contract(object):
                 env["result"] = res
                 for label, fn in self.ensures_:
                     ex.oblige("%s#%s" % (tag, label), call_named(fn, env, ex), "ensures", node.lineno)
+                for label, fn in self.witnessed_:
+                    ex.oblige("%s#%s" % (tag, label), call_named(fn, dict(env, _locals=dict(fr.locals)), ex), "ensures", node.lineno)
             ex.cur_func = tag
             saved = (ex.force_inline, ex.no_contract)
             saved_th, saved_ax = ex.theories, getattr(ex, "extra_axioms", [])
